@@ -93,10 +93,16 @@ known("C03", r"^asm_layout\|pcr-multi/\w+\|(C03:target|C02:\w+)\|pcr-multi/\w+:(
       {"asm": ["T NOP", "U NOP", " RMB 124", "A LDA [T,PCR]", " RMB 0", "B LDY U,PCR"]}, also=("C02",))
 
 # ------------------------------------------------------------------------------------------------ expressions / symbols (C04)
-known("C04", r"^asm_expr\|(imm8|imm16|mem|mem16|jmp|extind|idx|idx16)/[^|]*\|(C02:size|C04:value)\|[^|]*:(size=\d,len=\d|undecodable:[^|]*)",
-      "operand width of a symbol / expression operand follows the magnitude or spelling of the value instead of the instruction "
-      "(LDA #V+1 -> 3 bytes, LDX #V -> 2 bytes, JMP L below $100 -> 2 bytes): size and bytes disagree",
+known("C04", r"^asm_expr\|(imm8|imm16|mem|mem16|jmp|extind|idx|idx16)/(equ-(before|after)|label-(before|after)|num:\w+|equ-small)[-+*/](equ-(before|after)|label-(before|after)|num:\w+|equ-small)\|(C02:size|C04:value)\|[^|]*:(size=\d,len=\d|undecodable:[^|]*)",
+      "operand width of a two-term EXPRESSION operand follows the magnitude or spelling of the value instead of the instruction "
+      "(LDA #V+1 -> 3 bytes): size and bytes disagree",
+      {"asm": ["V EQU $0199", " LDA #V+1"]}, also=("C02", "C12", "C01"))
+known("C04", r"^asm_expr\|imm8/(equ-(before|after)|label-(before|after)|num:\w+|equ-small)\|(C02:size|C04:value)\|[^|]*:(size=\d,len=\d|undecodable:[^|]*):val=(256\.\.32767|32768\.\.65535|65536\.\.1000000000)$",
+      "an 8-bit immediate whose operand is a symbol with a value above 255 is emitted with two operand bytes (LDA #V, V EQU $0199)",
       {"asm": ["V EQU $0199", " LDA #V"]}, also=("C02", "C12", "C01"))
+known("C04", r"^asm_expr\|(imm16|mem|mem16|jmp|extind|idx|idx16)/(equ-(before|after)|label-(before|after)|num:\w+|equ-small)\|(C02:size|C04:value)\|[^|]*:(size=\d,len=\d|undecodable:[^|]*):val=(0\.\.0|1\.\.15|16\.\.127|128\.\.255)$",
+      "a 16-bit operand position whose operand is a symbol with a value below $100 is emitted with one byte (LDX #V, JMP L below $100)",
+      {"asm": ["V EQU 5", " LDX #V"]}, also=("C02", "C12", "C01"))
 known("C04", r"^asm_expr\|(imm16|mem|mem16|jmp|extind)/[^|]*-[^|]*\|C04:value\|[^|]*:value-mismatch[^|]*:val=-",
       "a subtraction with a negative result is rendered as an 8-bit two's complement (or wraps wrongly) instead of the 16-bit value "
       "modulo 65536 or a rejection (LDX #5-9)", {"asm": [" LDX #$0099-$9A"]})
